@@ -212,6 +212,51 @@ Proof.
 Qed.
 End Wire.
 
+(** ** The forward direction (no cap): every delivery of the dialogue is in its mailbox and is what the interfaces serve
+    With [delivery_exact] the deliveries are exactly what the dialogue entitles (one per accepted, storable recipient
+    of every transaction answered 250), so: every message the session acknowledged can be read back, byte for byte,
+    through every interface. *)
+Section Forward.
+Variable tag_of : delivery -> N.
+Variable date : Z.
+Variable content : N -> str.
+Variable src : delivery -> str.
+Variable mfa : str -> option str.
+Variable srcok : str -> nat -> bool.
+
+Lemma in_map_nth {A B} (f : A -> B) (l : list A) (x : A) : In x l -> exists i, nth_error (map f l) i = Some (f x).
+Proof.
+  intros H. apply In_nth_error in H as [i Hi]. exists i. rewrite nth_error_map, Hi. reflexivity.
+Qed.
+
+Theorem every_delivery_is_readable : forall c o w d name num body,
+  let tr := snd (fst (run_bytes c o w)) in
+  let st := store_of tag_of date 0 (deliveries_of tr) in
+  (forall d', In d' (deliveries_of tr) -> content (tag_of d') = src d') ->
+  In d (deliveries_of tr) -> mfa name = Some (d_mailbox d) ->
+  (forall k, srcok (d_mailbox d) k = true) ->
+  exists i e,
+    nth_error (box (d_mailbox d) (live st)) i = Some e /\ m_tag (e_msg e) = tag_of d /\
+    Rest.run_handler mfa (cfgc 0) srcok st Rest.HSrc name (Rest.id_of_k (e_k e)) num body = (st, (Rest.S200, Rest.PSrc (e_k e, e_msg e))) /\
+    nth_error (Pop3.mmsgs (Pop3.get_box (Pop3Store.abs content st) (d_mailbox d))) i =
+      Some {| Pop3.sid := Pop3Store.id_of_k (e_k e); Pop3.ssrc := src d |}.
+Proof.
+  intros c o w d name num body tr st Hsrc Hin Hn Hok.
+  pose proof (deliveries_reach_the_capped_store tag_of date 0 (deliveries_of tr) (d_mailbox d)) as Ht.
+  assert (Hd : In d (store_get (store_after_cap 0 [] (deliveries_of tr)) (d_mailbox d))).
+  { rewrite capped_store_from_empty, store_get_trim, no_other_mailbox_changes, cap_box_capl. unfold capl.
+    apply filter_In. split; [exact Hin|apply str_eqb_eq; reflexivity]. }
+  destruct (in_map_nth tag_of _ d Hd) as [i Hi]. rewrite <- Ht in Hi. unfold tags in Hi. rewrite nth_error_map in Hi.
+  fold (store_of tag_of date 0 (deliveries_of tr)) in Hi. fold st in Hi.
+  destruct (nth_error (box (d_mailbox d) (live st)) i) as [e|] eqn:He; [|discriminate].
+  assert (Htag : m_tag (e_msg e) = tag_of d) by (cbn in Hi; congruence). exists i, e. split; [first [exact He|reflexivity]|]. split; [exact Htag|].
+  pose proof (store_of_inv tag_of date 0 (deliveries_of tr)) as HI.
+  destruct (read_interfaces_agree_on_source mfa (cfgc 0) srcok content st name (d_mailbox d) e i num body HI Hn He (Hok _))
+    as (_ & H2 & _ & H4 & _ & _).
+  split; [exact H2|]. rewrite Htag, (Hsrc d Hin) in H4. exact H4.
+Qed.
+End Forward.
+
 (** ** The statement with the real source format, and an instance
     [src d] = Return-Path / Received headers (the formats regenerated from the source: SmtpTraceFmt.v) followed by
     the delivered body.  For a client that sent [enc body ++ rest] as its block, [dot_roundtrip] gives
